@@ -426,6 +426,25 @@ func ruleExportParts(c *Ctx, r *Rep) {
 			if !strings.Contains(o, "bytes.Buffer).Bytes(") {
 				continue
 			}
+			// the write depends on nothing but there being something to write (and no earlier error): a write skipped for
+			// another reason leaves the file's modification time behind the issuer's and the entity is redone every run
+			var foreign []string
+			var facts []guard
+			facts = append(facts, guardsOf(ci.Block())...)
+			for _, p := range ci.Block().Preds {
+				facts = append(facts, edgeGuard(p, ci.Block())...)
+				facts = append(facts, guardsOf(p)...)
+			}
+			for _, g := range facts {
+				o := strings.Join(pv.Origins(g.Cond), " ")
+				for _, what := range []string{"ReadFile(", "bytes.Equal(", ".Stat(", "os.Open(", ".Open("} {
+					if strings.Contains(o, what) {
+						foreign = append(foreign, "a test of "+what+"…) decides whether the file is written")
+					}
+				}
+			}
+			foreign = uniq(foreign)
+			r.Check(len(foreign) == 0, "write-unconditional|"+c.FuncKey(f), c.Pos(ci.Pos()), "whether the artifact is written does not depend on what the file system holds", strings.Join(foreign, "; "))
 			below := c.Graph().Reach(f)
 			all := true
 			for _, part := range names {
